@@ -52,7 +52,7 @@ func genC09(rt *rapid.T) C09Case {
 	c.Main = genDB(rt, 5)
 	c.NBMissing = rapid.IntRange(0, 4).Draw(rt, "nbmissing") == 0
 	if !c.NBMissing {
-		c.Notebook = genDB(rt, 12)
+		c.Notebook = genDB(rt, tierN(12, 40))
 	}
 	c.Pad = rapid.SampledFrom([]int{0, 0, 40, 300}).Draw(rt, "pad")
 	c.HistoryN = rapid.IntRange(0, 5).Draw(rt, "histn")
